@@ -477,7 +477,7 @@ def spec_tune(lines):
                     if prev_tok is None or prev_tok[0] != 'br' or len(notes) < 2:
                         raise Outside('broken rhythm not directly between two notes')
                     a, b = notes[-2], notes[-1]
-                    if len(notes) - 2 == last_broken or a[2] - a[1] != b[2] - b[1] or len(notes) - 1 <= seg_start:
+                    if len(notes) - 2 == last_broken or a[2] - a[1] != b[2] - b[1]:
                         raise Outside('broken rhythm between notes of different lengths')
                     d = a[2] - a[1]
                     kk = pending[1]
@@ -539,9 +539,9 @@ def spec_tune(lines):
     ids = []
     off = Fr(0)
     for i, (a, b, times) in enumerate(segs):
-        s0, s1 = notes[a][1] if a == 0 else notes[a - 1][2] if False else notes[a][1], notes[b - 1][2]
         # the segment spans from the end of the previous segment to the end of its last note
         s0 = notes[a - 1][2] if a > 0 else Fr(0)
+        s1 = notes[b - 1][2]
         for _ in range(times):
             for n in notes[a:b]:
                 exp_notes.append([n[0], n[1] - s0 + off, n[2] - s0 + off])
@@ -646,6 +646,13 @@ def compare_with_spec(tune, sp):
     return None
 
 
+OUTSIDE_ESCAPES = {}
+
+
+def extra_evidence():
+    return {'foreign_exceptions_outside_the_quantified_grammar': dict(OUTSIDE_ESCAPES)}
+
+
 def oracle(case, io):
     secs = case['input']['sections']
     header, tunes = split_book(secs)
@@ -653,13 +660,14 @@ def oracle(case, io):
     cls = []
     for i, tn in enumerate(tunes):
         r, _ = _parse_text(render_book(([header] if header else []) + [tn]))
-        # a lone tune without X: is itself read as a file header when a header precedes it; parse it joined
-        if header and not any(l[0] == 'f' and l[1][0] == 'X' for l in tn):
-            r, _ = _parse_text(render_book([header + tn]))
         alone.append(r)
         cls.append(classify(header + tn))
         txt = render_book([header + tn])
         if r[0] == 'RAISED':
+            if cls[-1][0] == 'outside':
+                # outside the quantified grammar (K:G#, L:1/0, Q:0, A//3 ...): no claim; counted for the evidence
+                OUTSIDE_ESCAPES[r[1]] = OUTSIDE_ESCAPES.get(r[1], 0) + 1
+                return None
             return {'kind': 'foreign-exception-escapes', 'exception': r[1], 'tune': i, 'class': cls[-1][0], 'abc': txt}
         c = cls[-1]
         if c[0] == 'supported':
@@ -702,3 +710,443 @@ def oracle(case, io):
 
 def nontrivial(case, io):
     return io[0] == 'OK' and any(len(t[1]) >= 2 for t in io[1])
+
+
+# =====================================================================================
+# Generators
+# =====================================================================================
+def key_table():
+    """every (tonic, mode suffix as written in the table) of the module's own SIG_TO_KEYS"""
+    from note_seq import abc_parser
+    out = []
+    for sig, keys in abc_parser.ABCTune.SIG_TO_KEYS.items():
+        for k in keys:
+            n = 2 if len(k) > 1 and k[1] in '#b' else 1
+            out.append((k[:n], k[n:]))
+    return out
+
+
+def mode_spellings(suffix):
+    name = MODES[suffix.lower()[:3]][1]
+    out = []
+    for s in MODE_NAMES[name]:
+        for v in (s, s.capitalize(), s.upper()):
+            if v not in out:
+                out.append(v)
+    if 'M' in out:
+        pass
+    return out
+
+
+NOP_TOKENS = ['"Am"', '"G7"', '"^slow"', '""', '.', '~', 'H', 'L', 'M', 'O', 'P', 'S', 'T', 'u', 'v', '(', ')']
+BARS = ['|', '|', '|', '||', '[|', '|]', '[|]']
+UN_TOKENS = [('chord', '[CEG]'), ('chord', '[ce]2'), ('tuplet', '(3'), ('tuplet', '(5'), ('variant', '|1'),
+             ('variant', '[2'), ('variant', ':|2'), ('variant', '| 1'), ('invalid', 'z'), ('invalid', 'z2'),
+             ('invalid', '!f!'), ('invalid', '{g}'), ('invalid', '+'), ('invalid', 'x'), ('invalid', '*')]
+NOP_FIELDS = [('T', 'A tune'), ('C', 'Trad.'), ('R', 'reel'), ('N', 'a note'), ('O', 'Ireland'), ('Z', 'nobody'),
+              ('S', 'source'), ('B', 'book'), ('r', 'remark'), ('I', 'linebreak $')]
+
+
+def gen_key(rng, table, wild=False):
+    tonic, suffix = rng.choice(table)
+    mode = rng.choice(mode_spellings(suffix))
+    sep = rng.choice(['', ' ']) if mode else ''
+    if mode and mode[0] in 'bB#':
+        sep = ' '
+    eaccs = []
+    exp = False
+    r = rng.random()
+    if r < 0.25:
+        exp = rng.random() < 0.4
+        for _ in range(rng.randint(1, 3)):
+            a = rng.choice(['^', '_', '=', '^', '_', ''])
+            if wild and rng.random() < 0.1:
+                a = rng.choice(['^^', '__'])
+            eaccs.append([a, rng.choice('abcdefgABCDEFG')])
+    return ['K', tonic, sep, mode, exp, eaccs]
+
+
+def gen_len(rng, wild=False):
+    r = rng.random()
+    if r < 0.45:
+        return (None, 0, None)
+    if r < 0.65:
+        return (rng.choice([2, 3, 4, 6, 8, 1]), 0, None)
+    if r < 0.75:
+        return (None, rng.choice([1, 1, 2, 3]), None)
+    if r < 0.85:
+        return (None, 1, rng.choice([2, 3, 4, 8]))
+    if r < 0.95:
+        return (rng.choice([1, 3, 5, 7]), 1, rng.choice([2, 4, 3, 8]))
+    if r < 0.98 or not wild:
+        return (rng.choice([1, 3]), 1, None)
+    return rng.choice([(3, 2, None), (None, 2, 3), (0, 0, None), (None, 1, 0), (3, 1, 0), (3, 2, 2)])
+
+
+def gen_note(rng, wild=False, lo=False):
+    acc = rng.choice(['', '', '', '', '^', '_', '='])
+    if wild and rng.random() < 0.03:
+        acc = rng.choice(['^^', '__'])
+    letter = rng.choice('CDEFGABcdefgab')
+    r = rng.random()
+    octs = ''
+    if r < 0.15:
+        octs = "'" * rng.randint(1, 2) if letter.islower() else ',' * rng.randint(1, 2)
+    elif r < 0.2:
+        octs = rng.choice(["'", ',', ",'", "',", "''", ',,'])
+    elif wild and r < 0.23:
+        octs = rng.choice(["'''''", ',,,,,,'])
+    n, s, d = gen_len(rng, wild)
+    return ['n', acc, letter, octs, n, s, d, rng.random() < 0.3]
+
+
+def gen_inline(rng, table, wild=False):
+    r = rng.random()
+    if r < 0.3:
+        return gen_key(rng, table, wild)
+    if r < 0.5:
+        return ['L', 1, rng.choice([1, 2, 4, 8, 16, 32, 64]), False]
+    if r < 0.7:
+        return gen_tempo(rng)
+    if r < 0.85:
+        return gen_meter(rng)
+    nm, tx = rng.choice(NOP_FIELDS)
+    return ['nop', nm, tx]
+
+
+def gen_tempo(rng):
+    r = rng.random()
+    rate = rng.choice([40, 60, 72, 80, 90, 96, 100, 108, 112, 120, 132, 144, 160, 180, 200, rng.randint(30, 240)])
+    if r < 0.6:
+        beats = [[rng.choice([1, 1, 3]), rng.choice([4, 8, 2, 4])]]
+        if rng.random() < 0.15:
+            beats.append([rng.choice([1, 3]), rng.choice([4, 8])])
+        return ['Q', 'frac', beats, rate, rng.choice(['', '', '"Allegro" '])]
+    if r < 0.93:
+        return ['Q', 'bare', [], rate, rng.choice(['', '', 'C=', 'C ='])]
+    return ['Q', 'string', [], 0, '"Andante"']
+
+
+def gen_meter(rng):
+    r = rng.random()
+    if r < 0.15:
+        return ['M', 'C', 4, 4, rng.choice(['C', 'c'])]
+    if r < 0.25:
+        return ['M', 'C|', 2, 2, rng.choice(['C|', 'c|'])]
+    if r < 0.32:
+        return ['M', 'none', 0, 0, rng.choice(['none', 'None'])]
+    n, d = rng.choice([(4, 4), (3, 4), (2, 4), (6, 8), (9, 8), (12, 8), (2, 2), (3, 8), (5, 8), (5, 4), (7, 8), (1, 2),
+                       (3, 2), (11, 16), (12, 16), (3, 16), (1, 4)])
+    return ['M', 'frac', n, d, '']
+
+
+def gen_segment(rng, table, nmax, wild=False):
+    """a run of tokens with at least one note and no section boundary"""
+    toks = []
+    n = rng.randint(1, nmax)
+    count = 0
+    i = 0
+    while i < n:
+        r = rng.random()
+        if r < 0.1 and toks:
+            toks.append(['bar', 0, '|', 0])
+        elif r < 0.16:
+            toks.append(['nop', rng.choice(NOP_TOKENS)])
+        elif r < 0.2:
+            toks.append(['in', gen_inline(rng, table, wild)])
+        elif r < 0.3 and i + 1 < n:
+            # a broken pair of equal notated length
+            a = gen_note(rng, wild)
+            b = gen_note(rng, wild)
+            b[4:7] = a[4:7]
+            b[7] = False
+            toks += [a, ['br', rng.choice('<>'), rng.choice([1, 1, 1, 2, 3])], b]
+            i += 2
+            count += 2
+            continue
+        else:
+            toks.append(gen_note(rng, wild))
+            if rng.random() < 0.05:
+                toks.append(['nop', '-'])
+            count += 1
+        i += 1
+    if count == 0:
+        toks.append(gen_note(rng, wild))
+    return toks
+
+
+def sanitize(toks):
+    """lexing hazard of the printer: a tie that does not follow a note would be read as part of a variant ending"""
+    out = []
+    for t in toks:
+        if t[0] == 'nop' and t[1] == '-' and not (out and out[-1][0] == 'n'):
+            continue
+        out.append(t)
+    return out
+
+
+def split_lines(rng, toks):
+    """cut a token list into music lines (never inside a broken pair, never leaving a bad line start)"""
+    lines = []
+    cur = []
+    for i, t in enumerate(toks):
+        cur.append(t)
+        nxt = toks[i + 1] if i + 1 < len(toks) else None
+        if nxt is None:
+            break
+        ok_start = nxt[0] in ('n', 'bar', 'in', 'colons')
+        in_pair = t[0] == 'br' or nxt[0] == 'br'
+        if ok_start and not in_pair and rng.random() < 0.12:
+            if rng.random() < 0.2:
+                cur.append(['nop', '\\'])
+            lines.append(['m', cur])
+            cur = []
+    if cur:
+        lines.append(['m', cur])
+    return lines
+
+
+def gen_body(rng, table, budget, wild=False):
+    """blocks: plain segments and (counted) repeats, rendered with the usual bar symbols"""
+    toks = []
+    nblocks = rng.randint(1, 5)
+    prev_rep = None
+    for b in range(nblocks):
+        per = max(1, budget // nblocks - 2)
+        seg = gen_segment(rng, table, min(per, 12), wild)
+        kind = rng.random()
+        if kind < 0.5:        # repeat
+            k = rng.choice([2, 2, 2, 3, 4])
+            one_sided = rng.random() < 0.25
+            if prev_rep is not None:
+                # close the previous repeat and open this one
+                if one_sided:
+                    toks.append(['bar', prev_rep - 1, rng.choice(['|', '|]', '||']), 0])
+                elif rng.random() < 0.3 and prev_rep == k:
+                    toks.append(['colons', 2 * (k - 1)])
+                elif rng.random() < 0.5:
+                    toks.append(['bar', prev_rep - 1, rng.choice(['|', '||', '|[|', '[]|[]']), k - 1])
+                else:
+                    toks.append(['bar', prev_rep - 1, '|', 0])
+                    toks.append(['bar', 0, rng.choice(['|', '[|']), k - 1])
+            elif not one_sided:
+                if toks and rng.random() < 0.3:
+                    toks.append(['bar', 0, '||', 0])
+                toks.append(['bar', 0, rng.choice(['|', '[|', '||']), k - 1])
+            elif toks:
+                toks.append(['bar', 0, rng.choice(['||', '|]', '[|']), 0])
+            toks += seg
+            prev_rep = k
+        else:
+            if prev_rep is not None:
+                toks.append(['bar', prev_rep - 1, rng.choice(['|', '|]', '||']), 0])
+            elif toks:
+                toks.append(['bar', 0, rng.choice(['||', '|]', '[|', '|', '|']), 0])
+            toks += seg
+            prev_rep = None
+    if prev_rep is not None:
+        toks.append(['bar', prev_rep - 1, rng.choice(['|', '|]', '||']), 0])
+    elif rng.random() < 0.5:
+        toks.append(['bar', 0, rng.choice(['|', '|]', '||']), 0])
+    return toks
+
+
+def gen_header(rng, table, ref, wild=False):
+    lines = [['f', ['X', ref]]]
+    if rng.random() < 0.8:
+        lines.append(['f', ['nop', 'T', 'Tune %d' % ref]])
+    extra = []
+    if rng.random() < 0.7:
+        extra.append(gen_meter(rng))
+    if rng.random() < 0.6:
+        extra.append(['L', 1, rng.choice([1, 2, 4, 8, 8, 16, 32, 64]), rng.random() < 0.5])
+    if rng.random() < 0.6:
+        extra.append(gen_tempo(rng))
+    if rng.random() < 0.3:
+        nm, tx = rng.choice(NOP_FIELDS)
+        extra.append(['nop', nm, tx])
+    if wild and rng.random() < 0.1:
+        extra.append(gen_meter(rng))
+    rng.shuffle(extra)
+    lines += [['f', f] for f in extra]
+    if rng.random() < 0.92:
+        lines.append(['f', gen_key(rng, table, wild)])
+    return lines
+
+
+def gen_tune(rng, table, ref, budget, flavour):
+    """flavour: 'ok' | 'unsupported' | 'wild'"""
+    wild = flavour == 'wild'
+    lines = gen_header(rng, table, ref, wild)
+    toks = gen_body(rng, table, budget, wild)
+    if wild:
+        # perturb: drop / duplicate / insert repeat marks, stray broken rhythm, bad fields
+        for _ in range(rng.randint(1, 3)):
+            r = rng.random()
+            pos = rng.randint(0, len(toks))
+            if r < 0.3 and toks:
+                del toks[min(pos, len(toks) - 1)]
+            elif r < 0.5:
+                toks.insert(pos, rng.choice([['bar', 1, '|', 0], ['bar', 0, '|', 1], ['colons', 2], ['colons', 3],
+                                             ['bar', 2, '|', 2], ['bar', 1, '|', 1], ['bar', 0, '||', 0]]))
+            elif r < 0.65:
+                toks.insert(pos, ['br', rng.choice('<>'), rng.randint(1, 3)])
+            elif r < 0.75:
+                toks.insert(pos, ['in', rng.choice([['M', 'bad', 0, 0, '4'], ['Kbad', 'none'], ['Kbad', 'HP'],
+                                                    ['K', 'G', '', '#', False, []], ['L', 1, 0, False],
+                                                    ['Q', 'bare', [], 0, ''], ['X', rng.randint(0, 5)],
+                                                    ['Kbad', 'Hp']])])
+            else:
+                toks.insert(pos, gen_note(rng, True))
+    if flavour == 'unsupported':
+        r = rng.random()
+        if r < 0.75:
+            kind, text = rng.choice(UN_TOKENS)
+            pos = rng.randint(1 if text in ('-',) else 0, len(toks))
+            # keep broken pairs intact
+            while 0 < pos < len(toks) and (toks[pos][0] == 'br' or toks[pos - 1][0] == 'br'):
+                pos -= 1
+            toks.insert(pos, ['un', kind, text])
+        elif r < 0.85:
+            pos = rng.randint(0, len(toks))
+            while 0 < pos < len(toks) and (toks[pos][0] == 'br' or toks[pos - 1][0] == 'br'):
+                pos -= 1
+            toks.insert(pos, ['in', rng.choice([['P', 'A'], ['V', '1']])])
+        else:
+            lines.insert(rng.randint(1, len(lines)), ['f', rng.choice([['P', 'AB'], ['V', '1 clef=treble']])])
+    body = split_lines(rng, sanitize(toks))
+    if rng.random() < 0.08 and len(body) > 1:
+        # an information field on its own line inside the body
+        body.insert(rng.randint(1, len(body) - 1), ['f', gen_inline(rng, table)])
+    return lines + body
+
+
+def gen_book(rng, table, tier):
+    ntunes = rng.choice([1, 1, 2, 2, 3, 4])
+    secs = []
+    if rng.random() < 0.15 and ntunes >= 1:
+        hdr = []
+        if rng.random() < 0.6:
+            hdr.append(['f', gen_meter(rng)])
+        if rng.random() < 0.6:
+            hdr.append(['f', ['L', 1, rng.choice([4, 8, 16]), False]])
+        if rng.random() < 0.4:
+            hdr.append(['f', ['nop', 'O', 'Somewhere']])
+        if hdr:
+            secs.append(hdr)
+    refs = rng.sample(range(1, 60), ntunes)
+    if rng.random() < 0.04 and ntunes > 1:
+        refs[-1] = refs[0]
+    for i in range(ntunes):
+        r = rng.random()
+        flavour = 'ok' if r < 0.62 else 'unsupported' if r < 0.82 else 'wild'
+        budget = rng.choice([6, 12, 20, 40, 58])
+        secs.append(gen_tune(rng, table, refs[i], budget, flavour))
+    return {'op': 'book', 'input': {'sections': secs}}
+
+
+def key_sweep(table, full):
+    """one single-tune tunebook per (key, mode spelling): a scale through two octaves with a bar line"""
+    out = []
+    for tonic, suffix in table:
+        sp = mode_spellings(suffix)
+        if not full:
+            sp = [suffix] if suffix in sp else sp[:1]
+        for mode in sp:
+            for sep in (['', ' '] if full and mode else ['']):
+                scale = [['n', '', c, '', None, 0, None, False] for c in 'CDEFGABcdefgab']
+                toks = scale[:7] + [['bar', 0, '|', 0]] + scale[7:]
+                out.append({'op': 'key', 'input': {'sections': [[
+                    ['f', ['X', 1]], ['f', ['K', tonic, sep, mode, False, []]], ['m', toks]]]}})
+    return out
+
+
+def corpus():
+    def book(*tunes):
+        return {'op': 'book', 'input': {'sections': list(tunes)}}
+
+    def n(letter, acc='', octs='', num=None, sl=0, den=None):
+        return ['n', acc, letter, octs, num, sl, den, False]
+
+    def tune(ref, key, toks, extra=()):
+        return [['f', ['X', ref]]] + [['f', f] for f in extra] + [['f', key]] + [['m', toks]]
+    C = ['K', 'C', '', '', False, []]
+    out = []
+    # F10: the four keys of the module's own table that used to escape as KeyError, each next to a good tune
+    for tonic, mode in [('Cb', ''), ('Fb', 'Lyd'), ('E#', 'Phr'), ('B#', 'Loc')]:
+        out.append(book(tune(1, C, [n('C'), n('D')]), tune(2, ['K', tonic, '', mode, False, []], [n('C'), n('E'), n('B')])))
+    # '::' is a bar line: bar accidentals end there
+    out.append(book(tune(1, C, [n('F', '^'), n('G'), ['colons', 2], n('F'), n('G'), ['bar', 1, '|', 0]])))
+    # broken rhythm at a tempo whose note lengths are not binary fractions of a second
+    out.append(book(tune(1, C, [n('A'), n('B'), n('c'), ['br', '>', 1], n('d')],
+                         extra=[['Q', 'frac', [[1, 4]], 100, ''], ['L', 1, 8, False]])))
+    # a>>b: double dotted / quartered
+    out.append(book(tune(1, C, [n('A'), ['br', '>', 2], n('B'), n('c'), ['br', '<', 3], n('d')])))
+    # F22 (outside the claim): empty repeat body after notes
+    out.append(book(tune(1, C, [n('g', '', ',,', None, 1, None), ['bar', 0, '|', 1], ['bar', 0, '|', 0], ['bar', 1, '|', 0]])))
+    # repeats of the test-suite shapes
+    out.append(book(tune(1, C, [n('B'), n('c'), n('d'), ['colons', 4], n('B'), n('c'), ['bar', 2, '|', 0]])))
+    out.append(book(tune(1, C, [n('B'), n('c'), ['bar', 1, '|', 0], n('d'), n('e')])))
+    # a header section, an unsupported tune between two good ones, duplicate reference numbers
+    out.append(book([['f', ['M', 'frac', 2, 4, '']], ['f', ['L', 1, 16, False]]],
+                    tune(3, C, [n('C'), n('E')]), tune(4, C, [n('C'), ['un', 'invalid', 'z'], n('E')]),
+                    tune(5, ['K', 'A', '', 'm', False, []], [n('a'), n('b', '_')])))
+    out.append(book(tune(7, C, [n('C')]), tune(7, C, [n('D')])))
+    # default unit from the meter; deprecated tempo resolved against it
+    out.append(book(tune(1, C, [n('C'), n('D', '', '', 3, 1, 2)], extra=[['M', 'frac', 2, 4, ''], ['Q', 'bare', [], 80, '']])))
+    return out
+
+
+def cases(rng, tier, n=None):
+    table = key_table()
+    thorough = tier == 'thorough'
+    out = key_sweep(table, thorough)
+    nb = n if n is not None else (40000 if thorough else 800)
+    for _ in range(nb):
+        out.append(gen_book(rng, table, tier))
+    return out
+
+
+def shrink(case):
+    secs = case['input']['sections']
+
+    def mk(s):
+        return {'op': case['op'], 'input': {'sections': s}}
+    if len(secs) > 1:
+        for i in range(len(secs)):
+            yield mk(secs[:i] + secs[i + 1:])
+    for i, sec in enumerate(secs):
+        for j, l in enumerate(sec):
+            if len(sec) > 1:
+                yield mk(secs[:i] + [sec[:j] + sec[j + 1:]] + secs[i + 1:])
+        for j, l in enumerate(sec):
+            if l[0] == 'm' and len(l[1]) > 1:
+                k = len(l[1])
+                for a, b in [(0, k // 2), (k // 2, k)] + [(x, x + 1) for x in range(k)]:
+                    nl = ['m', sanitize(l[1][:a] + l[1][b:])]
+                    if nl[1]:
+                        yield mk(secs[:i] + [sec[:j] + [nl] + sec[j + 1:]] + secs[i + 1:])
+
+
+RULE = ('seeded grammar-directed generator of tunebooks (1-4 tunes; header fields X/T/M/L/Q/K; every key of the module\'s '
+        'own SIG_TO_KEYS with every mode name/abbreviation/capitalisation; notes with accidentals, octave marks and all '
+        'length forms; bar-scoped accidentals; broken rhythm; simple, counted and one-sided repeats; inline fields) mixed '
+        'with tunes using exactly one unsupported construct and with perturbed (ill-formed) tunes, plus one tune per key '
+        'spelling; non-trivial = at least one tune with two or more notes parsed; distinct by canonical input')
+ASSUMPTIONS = ['regex lexing is exercised, not modelled: the harness prints token lists to ABC text (tokens separated by a '
+               'space, notes optionally adjacent) and the model consumes the token list',
+               'times are exact rationals in the model and binary64 in the implementation; compared with tolerance '
+               '1e-9*max(1,|t|); pitches, keys, modes, meters, section ids, repeat counts and exception classes exactly',
+               'the default tempo (120 qpm) and default velocity (90) are the implementation\'s constants, not ABC rules',
+               'ties, slurs, decorations and annotations are treated as no-ops (outside the claim)']
+META = {
+    'level_text': ('Theorems for ALL token lists / all 105 keys x every mode spelling (kernel enumeration over the tables '
+                   'regenerated from abc_parser on every run): key table soundness, the accidental-precedence pitch rule as a '
+                   'function of the token history, the length rule and clock/onset invariants, repeat expansion for every '
+                   'sequence of plain and counted-repeat blocks, and per-tune isolation of parse_abc_tunebook.  The model is tied '
+                   'to the real parser by a differential run on generated tunebooks rendered to ABC text, and the oracle '
+                   're-derives every observable from the ABC 2.1 rules.'),
+    'level_note': ('Trusted: Coq kernel + vm_compute; the hand-written token-level model Model/Abc.v (tied by correspondence '
+                   'only); the 60-line printer; regex lexing, protobuf and float arithmetic of the implementation are '
+                   'exercised, not modelled.'),
+}
